@@ -9,6 +9,7 @@ import (
 	"fmt"
 	"strings"
 	"time"
+	_ "time/tzdata" // zones with daylight saving, whatever the machine has installed
 
 	"github.com/knz/shakespeare/pkg/crdb/timeutil"
 	"github.com/knz/shakespeare/verifharness/vh"
@@ -23,6 +24,13 @@ type timerCase struct {
 
 func doMicro(sec, nsec int64) microCase {
 	return microCase{sec, nsec, timeutil.ToUnixMicros(time.Unix(sec, nsec))}
+}
+
+// doMicroIn: the same instant presented in a zone (the result is a property
+// of the instant, not of the zone it is displayed in; wall-clock times that a
+// fall-back repeats are the interesting ones).
+func doMicroIn(loc *time.Location, sec, nsec int64) microCase {
+	return microCase{sec, nsec, timeutil.ToUnixMicros(time.Unix(sec, nsec).In(loc))}
 }
 
 func doFrom(us int64) fromCase {
@@ -212,6 +220,25 @@ func main() {
 	// the two ends of what an int64 of microseconds can represent: the lowest second
 	// holds MinInt64 = -9223372036855 s + 224192 us, the highest MaxInt64 = 9223372036854 s + 775807 us
 	const loSec, hiSec = int64(-9223372036855), int64(9223372036854)
+	// instants around the end of daylight saving (the repeated hour) and its start, in three zones
+	for _, z := range []struct {
+		name string
+		secs []int64
+	}{
+		{"America/New_York", []int64{1730611800, 1730615400, 1730619000, 1710054000, 1710057600}}, // 2024-11-03 05:30/06:30/07:30 UTC, 2024-03-10
+		{"Europe/Berlin", []int64{1698539400, 1698543000, 1698546600, 1679790600}},                // 2023-10-29 00:30/01:30/02:30 UTC, 2023-03-26
+		{"Australia/Lord_Howe", []int64{1712415600, 1712417400, 1712419200}},                        // half-hour shift, 2024-04-06
+	} {
+		loc, err := time.LoadLocation(z.name)
+		if err != nil {
+			continue
+		}
+		for _, sc := range z.secs {
+			for _, n := range []int64{0, 499, 500, 999999499, 999999500, 123456789} {
+				micro = append(micro, doMicroIn(loc, sc, n))
+			}
+		}
+	}
 	for _, n := range []int64{224192000, 224192001, 224192499, 224192500, 224193000, 500000000, 999999499, 999999500, 999999999} {
 		micro = append(micro, doMicro(loSec, n))
 	}
